@@ -2,6 +2,7 @@
 
 import collections
 from typing import (
+    AbstractSet,
     Dict,
     List,
     Optional,
@@ -199,7 +200,10 @@ def extend_schema(
     ast = _document_ast(document)
 
     schema_exts, type_defs, directive_defs, type_exts = _collect_extensions(
-        schema, ast, strict=strict
+        schema,
+        ast,
+        strict=strict,
+        supplied=frozenset(t.name for t in additional_types or []),
     )
 
     if not (
@@ -341,7 +345,10 @@ def _document_ast(
 
 
 def _collect_extensions(  # noqa: C901
-    schema: Schema, document: _ast.Document, strict: bool = True
+    schema: Schema,
+    document: _ast.Document,
+    strict: bool = True,
+    supplied: AbstractSet[str] = frozenset(),
 ) -> Tuple[
     List[_ast.SchemaExtension],
     Dict[str, _ast.TypeDefinition],
@@ -405,7 +412,14 @@ def _collect_extensions(  # noqa: C901
 
     for ext in _type_exts:
         target = ext.name.value
-        if not ((target in type_defs) or schema.has_type(target)):
+        # A user supplied type (additional_types) which only the extensions of
+        # this document refer to is not in the schema yet: its own extensions
+        # apply to it all the same.
+        if not (
+            (target in type_defs)
+            or schema.has_type(target)
+            or target in supplied
+        ):
             if strict:
                 raise ExtensionError(
                     'Cannot extend undefined type "%s".' % target, [ext]
